@@ -117,6 +117,16 @@ func (s *Schedule) Delete(jobConfig *execution.JobConfig) error {
 	return nil
 }
 
+// Contains returns true if the JobConfig has a next schedule time in the internal heap.
+func (s *Schedule) Contains(jobConfig *execution.JobConfig) bool {
+	name, err := cache.MetaNamespaceKeyFunc(jobConfig)
+	if err != nil {
+		return false
+	}
+	_, ok := s.jobConfigs.Search(name)
+	return ok
+}
+
 // Bump will set the JobConfig's next scheduled time in the internal heap,
 // relative to but after popTime. If the JobConfig is in the heap previously,
 // it will be updated.
